@@ -206,9 +206,16 @@ int main(int argc, char** argv) {
       c.nontrivial(vh::fnv_str(what));
       std::vector<std::vector<uint8_t>> stack; stack.push_back({});
       long execs = 0; bool cut = false;
+      // two threads get one more pre-emption; the richest two-thread programs (the longest ones on a small,
+      // initially empty cache, where records are recycled most) get two more: ABA-type faults need a stalled
+      // thread to be overtaken twice
+      bool rich = cf.progs.size() == 2 && (int)cf.progs[0].size() == maxops2 && (int)cf.progs[1].size() == maxops2 && cf.cap <= 2 && cf.prefill == 0;
+      int cfbound = cf.progs.size() == 2 ? (rich ? bound + 2 : bound + 1) : bound;
+      long cfcap = rich ? exec_cap * 20 : exec_cap;
+      if (rich) c.count("configs.deep_bound");
       while (!stack.empty()) {
         std::vector<uint8_t> prefix = stack.back(); stack.pop_back();
-        Sched s; s.prefix = prefix; s.bound = bound; s.budget = 5000;
+        Sched s; s.prefix = prefix; s.bound = cfbound; s.budget = 5000;
         History h = run_once(cf.progs, cf.cap, cf.prefill, s);
         execs++; total_exec++;
         c.eval();
@@ -224,11 +231,11 @@ int main(int argc, char** argv) {
         }
         for (size_t i = prefix.size(); i < s.alts.size(); i++)
           for (uint8_t a : s.alts[i]) { std::vector<uint8_t> p(s.trace.begin(), s.trace.begin() + i); p.push_back(a); stack.push_back(p); }
-        if (execs >= exec_cap) { cut = true; break; }
+        if (execs >= cfcap) { cut = true; break; }
       }
       c.count("executions.enumerated", execs);
       c.count(cut ? "configs.cut_short" : "configs.exhausted_within_bound");
-      if (idx % 400 == 0) c.sample(what + vh::fmt(": %ld executions, preemption bound %d", execs, bound));
+      if (idx % 400 == 0) c.sample(what + vh::fmt(": %ld executions, preemption bound %d", execs, cfbound));
       return;
     }
     if (idx < NC + NSEQ) {
